@@ -456,6 +456,14 @@ def ovec_lag_block(caps):
                 cases.append("cap=%d :: sub(%s) ; %s ; %s ; poll(0) ; %s ; drain(0) ; dropvec ; drain(0)" % (
                     cap, fl, txn, " ; ".join(ops) if ops else "get", "push_back(99)"))
                 cases.append("cap=%d :: sub(%s) ; %s ; poll(0) ; dropvec ; drain(0)" % (cap, fl, txn))
+                # the subscriber pauses in the MIDDLE of a multi-diff batch (one or two of its diffs taken),
+                # k more updates are made, the vector is dropped, and only then is the rest polled
+                if k <= 3:
+                    txn3 = "tb ; t.push_back(60) ; t.push_back(61) ; t.push_back(62) ; tc"
+                    for taken in ("poll(0)", "poll(0) ; poll(0)"):
+                        for end in ("dropvec ; drain(0)", "drain(0) ; dropvec ; drain(0)"):
+                            cases.append("cap=%d :: sub(%s) ; %s ; %s ; %s ; %s" % (
+                                cap, fl, txn3, taken, " ; ".join(ops) if ops else "get", end))
     return cases
 
 
@@ -498,6 +506,22 @@ def ovec_txn_entries(maxlen):
             for sub in ("p", "b"):
                 for end in ("tc", "td"):
                     cases.append("cap=16 :: append[1,2,3,4] ; sub(%s) ; tb ; %s ; %s ; get ; drain(0) ; push_back(99) ; drain(0)" % (sub, b, end))
+    return cases
+
+
+def ovec_txn_long(maxlen=5):
+    """longer transaction bodies over a SMALL alphabet: the same position written more than once with the
+    element behind it popped and re-pushed in between, at either end (what a batch that coalesces or
+    reorders recorded diffs gets wrong); bodies of 4..maxlen operations"""
+    alpha = ["t.set(2,7)", "t.set(2,8)", "t.set(0,9)", "t.pop_back", "t.push_back(5)", "t.pop_front", "t.push_front(6)"]
+    cases = []
+    for n in range(4, maxlen + 1):
+        for body in itertools.product(alpha, repeat=n):
+            # keep bodies that write some position at least twice and change the length in between
+            sets = [k for k, x in enumerate(body) if x.startswith("t.set")]
+            if len(sets) < 2 or not any(("pop" in x or "push" in x) for x in body[sets[0]:sets[-1]]):
+                continue
+            cases.append("cap=16 :: append[1,2,3] ; sub(%s) ; tb ; %s ; tc ; get ; drain(0)" % ("pb"[len(cases) % 2], " ; ".join(body)))
     return cases
 
 
@@ -936,10 +960,10 @@ def hand_three(quick=True):
     st1s = ["head:dyninit:2", "tail:dynamic:-", "skip:dyninit:1"]
     st2s = ["filter:-:255"] if quick else ["filter:-:255", "head:static:5", "filter:-:170"]
     cases = []
-    for s0 in HAND_STAGE0:
+    for bat, s0 in [(b, x) for b in "ub" for x in HAND_STAGE0]:
         for s1 in st1s:
             for s2 in st2s:
-                for d1 in ds:
+                for d1 in (ds if bat == "u" else ds[:4]):
                     n1 = len_after(d1, len(src))
                     for p1 in polls:
                         for d2 in ds:
@@ -950,7 +974,7 @@ def hand_three(quick=True):
                                 if s1.endswith("dynamic:-"):
                                     evs.append("l1:2")
                                 evs += ["d:" + d2] + ([p2] if p2 else []) + ["H", "D", "d:PushBack(4)", "D"]
-                                cases.append("u %s | %s | %s | %s :: %s" % (vec(src), s0, s1, s2, " ; ".join(evs)))
+                                cases.append("%s %s | %s | %s | %s :: %s" % (bat, vec(src), s0, s1, s2, " ; ".join(evs)))
     return cases
 
 
@@ -995,7 +1019,7 @@ def hand_random(rng, n):
             return evs
         evs = block(rng.randrange(0, 8), False) + ["H"] + block(rng.randrange(1, 7), True)
         stages = "%s | %s" % (s0, s1)
-        if bat == "u" and s1.split(":")[0] in ("head", "tail", "skip") and rng.random() < 0.6:
+        if s1.split(":")[0] in ("head", "tail", "skip") and rng.random() < 0.6:
             # a second hand-over: single polls of the two-stage stack first (lazy pulls through both levels)
             mid = []
             for _ in range(rng.randrange(0, 5)):
